@@ -65,7 +65,7 @@ func c11Concurrent(run *rt.Run) {
 		viaBroker := cr.Intn(3) == 0
 		flushers := cr.Intn(3)
 		run.Progress("C11 concurrent %d senders=%d events=%d sender=%v viaBroker=%v flushAllers=%d", i, nsend, nev, withSender, viaBroker, flushers)
-		e := &env{}
+		e := &env{slowNow: int32(cr.Intn(4))}
 		f := &gated.Filter{Expiration: expiration * time.Second, NowFunc: e.now}
 		if withSender {
 			f.Broker = &recSender{e}
